@@ -530,10 +530,24 @@ fn gen_spec(g: &mut Gen, depth: usize, in_len: usize, o: &LoopOpts) -> LoopSpec 
             }
             6..=8 => {
                 // side input: a stream built outside the loop
-                let n = [0usize, 1, 3, 12, 40, 300][g.t.draw(6) as usize];
-                let keys = g.gen_keys();
+                let mut n = [0usize, 1, 3, 12, 40, 300][g.t.draw(6) as usize];
+                let mut keys = g.gen_keys();
                 let par = g.t.draw(2) == 1;
+                // a join inside an iterate feeds its own output back: keep the side's keys unique
+                // so that the stream grows by at most |side| per round
+                let unique_side = iterate && k == 7;
+                if unique_side {
+                    n = n.min(40);
+                    keys = 400;
+                }
                 let mut sid = g.add_source(par, n, keys);
+                if unique_side {
+                    if let Some(Src::Iter(v)) | Some(Src::ParIter(v)) = g.sources.last_mut() {
+                        for (i, e) in v.iter_mut().enumerate() {
+                            e.key = i as u16;
+                        }
+                    }
+                }
                 if g.t.draw(3) == 2 {
                     sid = g.un(sid, UnOp::Map(MapFn::Add(3)));
                 }
@@ -542,7 +556,7 @@ fn gen_spec(g: &mut Gen, depth: usize, in_len: usize, o: &LoopOpts) -> LoopSpec 
                 let est = in_len * 2 * n / (keys as usize).max(1);
                 let bop = match k {
                     6 => BinOp::Merge,
-                    7 if !iterate && est <= 4000 => g.gen_join(),
+                    7 if (!iterate && est <= 4000) || unique_side => g.gen_join(),
                     7 => BinOp::Merge,
                     _ => BinOp::Zip,
                 };
